@@ -252,6 +252,21 @@ def run_case(case):
             exp.pop(victim, None)
             cfg['then_delete'] = victim
             cov['config']['duplicate/then_delete_%s' % ('original' if victim == src else 'copy' if victim == out_name else 'other')] = 1
+        elif fam == 'duplicate' and rng.random() < 0.3:
+            # a later step reads only the first two rows of the ORIGINAL: the copy still holds every row
+            import itertools
+
+            def head_of_original(package):
+                yield package.pkg
+                for res in package:
+                    if res.res.name == src:
+                        yield itertools.islice(res, 2)
+                    else:
+                        yield res
+            steps.append(head_of_original)
+            exp[src] = ('rows', copy.deepcopy(tables[src][:2]), None)
+            cfg['then_read_only_2_rows_of'] = src
+            cov['config']['duplicate/then_original_read_partially'] = 1
         if fam == 'duplicate_alias':
             # in-place mutators applied to the ORIGINAL only, downstream of duplicate
             kind = rng.choice(['add_field', 'find_replace', 'set_type', 'add_computed', 'delete_fields', 'nested'])
